@@ -322,6 +322,7 @@ type Frame struct {
 	curState *State
 	lastIdx  string
 	havocLog []havocRec
+	dispatchReach string // reach of the enclosing dynamic dispatch (before the target guard), "" outside
 }
 
 type retInfo struct {
@@ -772,6 +773,9 @@ func (fr *Frame) enterLoop(li *LoopInfo, st *State, reach string) (*State, strin
 	li.hreach = reach
 	if li.lc != nil {
 		for _, inv := range li.lc.Invariants {
+			if c.rel != nil && !relKeeps(inv) {
+				continue
+			}
 			g := fr.evalBool(inv.E, fr.invEnv(ns), inv)
 			c.assume(sImp(reach, g))
 		}
@@ -1174,6 +1178,19 @@ func (c *Ctx) globalFacts(name string, v Val) {
 		// only indices in range are constrained
 		gname := c.define("gtab_"+name, "(Array Int Int)", term)
 		c.assume("(forall ((i Int)) (! (=> (and (<= 0 i) (< i " + fmt.Sprint(len(vals)) + ")) (= (select " + v.C[0] + " i) (select " + gname + " i))) :pattern ((select " + v.C[0] + " i))))")
+		// ground lemma for mode R (re-evaluated on this run's table): the table does not
+		// distinguish the two cases of an ASCII letter
+		if c.rel != nil && len(vals) == 256 {
+			sym := true
+			for i := 'a'; i <= 'z'; i++ {
+				if vals[i] != vals[i-32] {
+					sym = false
+				}
+			}
+			if sym {
+				c.assume("(forall ((i Int)) (! (=> (and (<= 0 i) (< i 256)) (= (select " + v.C[0] + " i) (select " + v.C[0] + " " + sUp("i") + "))) :pattern ((select " + v.C[0] + " i))))")
+			}
+		}
 	}
 	switch name {
 	case "wordAcceptTable":
